@@ -4431,9 +4431,16 @@ where
           Some(ControlOperator::LE) if i128::from(*i) <= *v as i128 => None,
           Some(ControlOperator::GT) if i128::from(*i) > *v as i128 => None,
           Some(ControlOperator::GE) if i128::from(*i) >= *v as i128 => None,
-          Some(ControlOperator::SIZE) => match 256i128.checked_pow(*v as u32) {
-            Some(n) if i128::from(*i) < n => None,
-            _ => Some(format!("expected value .size {}, got {:?}", v, i)),
+          // uint .size v: the value fits in v bytes. When 256^v does not fit
+          // in 128 bits (v >= 16) every 64-bit integer does.
+          Some(ControlOperator::SIZE) => match u32::try_from(*v)
+            .ok()
+            .and_then(|bytes| 256i128.checked_pow(bytes))
+          {
+            Some(limit) if i128::from(*i) >= limit => {
+              Some(format!("expected value .size {}, got {:?}", v, i))
+            }
+            _ => None,
           },
           Some(ControlOperator::BITS) => {
             if let Some(sv) = 1u32.checked_shl(*v as u32) {
